@@ -110,6 +110,16 @@ fn c20_enumerated(cx: &mut Ctx) {
                     })
                     .collect();
                 probe_cells(cx, PK::None, &prefix, &probes, "table", &format!("{}{}|so={}", slot, code, shifted_out), "API");
+                // translation is per code point: a character above 255 in the same draw() call must
+                // not switch it off for its neighbours
+                let mixed: Vec<(Op, String, String)> = [0x5fu32, 0x61, 0x71, 0x7e, 0xe9, 0x6a]
+                    .iter()
+                    .map(|cp| {
+                        let ch = char::from_u32(*cp).unwrap();
+                        (Op::Api(Call::Draw(format!("{}{}z", ch, '\u{2502}'))), shown(chars[*cp as usize]), format!("mixed cp=0x{:02x}", cp))
+                    })
+                    .collect();
+                probe_cells(cx, PK::None, &prefix, &mixed, "table", &format!("{}{}|so={}|mixed", slot, code, shifted_out), "API, mixed string");
                 // code points above 255 pass through untranslated
                 let hi: Vec<(Op, String, String)> = ['\u{100}', 'ж', '│', '\u{2592}', 'Ω']
                     .iter()
